@@ -26,6 +26,7 @@ import (
 	"github.com/ory/fosite/compose"
 	"github.com/ory/fosite/handler/openid"
 	"github.com/ory/fosite/storage"
+	"github.com/ory/x/errorsx"
 	"github.com/ory/fosite/token/jwt"
 	"github.com/ory/fosite/zz_verif_h/world"
 	"github.com/ory/fosite/zz_verif_h/zz"
@@ -537,7 +538,7 @@ func (f *faultyPKCE) GetPKCERequestSession(ctx context.Context, signature string
 // after the fault has passed the binding is what it was.
 func ZZ_C03_lookup_fault() {
 	armed := false
-	fault := []error{errors.New("connection reset"), errors.New("context deadline exceeded"), fosite.ErrServerError}[zz.Choice("fault", 3)]
+	fault := []error{errors.New("connection reset"), errors.New("context deadline exceeded"), fosite.ErrServerError, fosite.ErrSerializationFailure, errorsx.WithStack(fosite.ErrSerializationFailure)}[zz.Choice("fault", 5)]
 	wd := world.New(world.Options{
 		WrapStore: func(st *storage.MemoryStore) interface{} { return &faultyPKCE{MemoryStore: st, armed: &armed, err: fault} },
 	})
